@@ -335,11 +335,74 @@ func c16r2(c *Ctx) {
 				ob.Unknown("the result of FundV2Transaction is not tested")
 				continue
 			}
+			// the funded transaction may travel on in a field of a local record (`n := negotiation{txn: formationTxn}`;
+			// the record's methods sign and complete n.txn): that field names the same reserved inputs
+			type fieldOf struct {
+				rec types.Object
+				fld *types.Var
+			}
+			var carriers []fieldOf
+			for _, w := range f.WritesIn(f.Body, false) {
+				cl, isLit := ast.Unparen(w.RHS).(*ast.CompositeLit)
+				if w.RHS == nil || !isLit {
+					continue
+				}
+				rec := f.ObjOf(ast.Unparen(w.LHS))
+				if rec == nil {
+					continue
+				}
+				for _, el := range cl.Elts {
+					if kv, isKV := el.(*ast.KeyValueExpr); isKV && f.ObjOf(ast.Unparen(kv.Value)) == txn {
+						if k, isID := kv.Key.(*ast.Ident); isID {
+							if st, isStruct := f.TypeOf(cl).Underlying().(*types.Struct); isStruct {
+								for i := 0; i < st.NumFields(); i++ {
+									if st.Field(i).Name() == k.Name {
+										carriers = append(carriers, fieldOf{rec, st.Field(i)})
+									}
+								}
+							}
+						}
+					}
+				}
+			}
+			// … or in a local that is a whole copy of it (the record split into its fields)
+			copies := map[types.Object]bool{}
+			for _, w := range f.WritesIn(f.Body, false) {
+				if w.RHS != nil && f.ObjOf(ast.Unparen(w.RHS)) == txn {
+					if o := f.ObjOf(ast.Unparen(w.LHS)); o != nil && o != txn {
+						if _, isID := ast.Unparen(w.LHS).(*ast.Ident); isID {
+							copies[o] = true
+						}
+					}
+				}
+			}
+			mentionsFunded := func(a ast.Expr) bool {
+				if f.MentionsObj(a, false, txn) {
+					return true
+				}
+				for o := range copies {
+					if f.MentionsObj(a, false, o) {
+						return true
+					}
+				}
+				hit := false
+				ast.Inspect(a, func(y ast.Node) bool {
+					if sel, isSel := y.(*ast.SelectorExpr); isSel {
+						for _, cr := range carriers {
+							if f.FieldOf(sel) == cr.fld && f.ObjOf(ast.Unparen(sel.X)) == cr.rec {
+								hit = true
+							}
+						}
+					}
+					return true
+				})
+				return hit
+			}
 			isRelease := func(n *cfgx.Node) bool {
 				for _, rc := range f.NodeCalls(n) {
 					if rc.Fn != nil && rc.Fn.Name() == "ReleaseInputs" {
 						for _, a := range rc.Expr.Args {
-							if f.MentionsObj(a, false, txn) {
+							if mentionsFunded(a) {
 								return true
 							}
 						}
